@@ -481,6 +481,28 @@ def task_bus(t):
                     r2 = B.find_reply(o.get(c), 2)
                     if r2 is None or r2.mtype != R.MT_RETURN or r2.body[0][1] != uid:
                         out.append(Violation('identity', 'bus:GetConnectionUnixUser', 'uid %d config %s: the bus reports %r' % (uid, cfgname, r2), case))
+                if admitted and rep is not None and rep.mtype == R.MT_RETURN:
+                    # the identity the application sees through the other accessor: GetConnectionCredentials must name the
+                    # user the MECHANISM established - a uid for EXTERNAL, none at all for ANONYMOUS (whatever the socket says)
+                    o = bus.step(c, R.encode_message(R.bus_call(3, 'GetConnectionCredentials', [R.S(rep.body[0][1])])))
+                    r3 = B.find_reply(o.get(c), 3)
+                    creds = None
+                    if r3 is not None and r3.mtype == R.MT_RETURN and r3.body:
+                        creds = {k[1]: v for (_, (k, v)) in r3.body[0][1]}
+                    if creds is None:
+                        out.append(Violation('identity', 'bus:GetConnectionCredentials', 'uid %d config %s sequence %r: no credentials reported: %r' % (uid, cfgname, seq, r3), case))
+                    else:
+                        seen_uid = creds.get(b'UnixUserID')
+                        seen_uid = seen_uid[1][1] if seen_uid is not None else None
+                        want_uid = uid if m.identity[0] == 'uid' else None
+                        if seen_uid != want_uid:
+                            out.append(Violation('identity', 'bus:GetConnectionCredentials', 'uid %d config %s sequence %r: the mechanism established %r, GetConnectionCredentials reports UnixUserID %r (all keys: %r)' %
+                                                 (uid, cfgname, seq, m.identity, seen_uid, sorted(creds)), case))
+                        if m.identity == ('anon',):
+                            o = bus.step(c, R.encode_message(R.bus_call(4, 'GetConnectionUnixUser', [R.S(rep.body[0][1])])))
+                            r4 = B.find_reply(o.get(c), 4)
+                            if r4 is None or r4.mtype != R.MT_ERROR:
+                                out.append(Violation('identity', 'bus:GetConnectionUnixUser', 'uid %d config %s: an anonymous peer is reported as user %r' % (uid, cfgname, r4), case))
         except HarnessDied as e:
             out.append(crash_violation(e, case))
             bus.h.close()
